@@ -25,6 +25,41 @@ def emit_all(emit) -> None:
         [f.name for f in dataclasses.fields(Chop)],
         "dataclasses.fields(Chop), in declaration order (the keys of Chop.results)",
     )
+    # --- round 5: what the source text of the anchored functions says (read with `ast`, nothing is interpreted)
+    import ast
+    import inspect
+    import textwrap
+
+    tree = ast.parse(textwrap.dedent(inspect.getsource(Chop.calculate)))
+    rounds = [
+        n.iter.args[0].value
+        for n in ast.walk(tree)
+        if isinstance(n, ast.For) and isinstance(n.iter, ast.Call) and getattr(n.iter.func, "id", None) == "range"
+        and len(n.iter.args) == 1 and isinstance(n.iter.args[0], ast.Constant)
+    ]
+    emit("c03CalcRounds", "List Nat", rounds, "the constant bounds of `for _ in range(N)` loops in Chop.calculate (one: the closure loop)")
+    keys = [sorted(e.value for e in n.elts) for n in ast.walk(tree) if isinstance(n, ast.Set)]
+    emit("c03RequiredKeys", "List (List String)", keys, "the set literals in Chop.calculate (one: the values that must be known to return), sorted")
+
+    guards = []
+    for name, fn in inspect.getmembers(relations, inspect.isfunction):
+        if name.startswith("get_") and name.count("__") == 2:
+            o, a, b = name[4:].split("__")
+            ftree = ast.parse(textwrap.dedent(inspect.getsource(fn)))
+            calls = sorted(
+                (n.lineno, n.col_offset, n.func.id, " ".join(ast.unparse(x).strip("'\"") for x in n.args))
+                for n in ast.walk(ftree)
+                if isinstance(n, ast.Call) and isinstance(n.func, ast.Name) and n.func.id.startswith("_validate_")
+            )
+            raises = sum(isinstance(n, ast.Raise) for n in ast.walk(ftree))
+            guards.append(((o, a, b), [(c[2], c[3]) for c in calls], raises))
+    emit(
+        "c03Guards",
+        "List ((String × String × String) × List (String × String) × Nat)",
+        guards,
+        "per relation: the `_validate_*` calls in source order (validator, arguments) and the number of explicit `raise` statements",
+    )
+
     probe = Chop()
     emit(
         "c03ChopDefaults",
